@@ -9,6 +9,7 @@ mod p01;
 mod p02;
 mod p03;
 mod p04;
+mod p05;
 
 use engine::*;
 use std::path::PathBuf;
@@ -20,6 +21,7 @@ macro_rules! for_prop {
             "C02" => $f::<p02::P>($($arg),*),
             "C03" => $f::<p03::P>($($arg),*),
             "C04" => $f::<p04::P>($($arg),*),
+            "C05" => $f::<p05::P>($($arg),*),
             other => {
                 eprintln!("unknown property {other}");
                 std::process::exit(2)
